@@ -34,7 +34,15 @@ package object
 //@ family object.Object.Dump(this, ident)
 //@   requires ident >= 0
 //@   modifies nothing
+// C20: a custom function receives every value as the plain Go value of the same content
 //@ family object.Object.Val(this)
+//@   ensures faithful-int: istype(this, *Int) ==> istype(result, int64) && as(result, int64) == as(this, *Int).Value
+//@   ensures faithful-str: istype(this, *Str) ==> istype(result, string) && as(result, string) == as(this, *Str).Value
+//@   ensures faithful-bool: istype(this, *Bool) ==> istype(result, bool) && as(result, bool) == as(this, *Bool).Value
+//@   ensures faithful-float: istype(this, *Float) ==> istype(result, float64) && same(as(result, float64), as(this, *Float).Value)
+//@   ensures faithful-nil: istype(this, *Nil) ==> result == nil
+//@   ensures faithful-array: istype(this, *Array) ==> istype(result, []any) && len(as(result, []any)) == len(as(this, *Array).Elements)
+//@   ensures faithful-object: istype(this, *Obj) ==> istype(result, map[string]any)
 //@   modifies nothing
 
 // ---- scopes ----
@@ -143,3 +151,6 @@ package object
 //@   modifies nothing
 //@   loop 0: invariant forall(j, 0, len(keys), has(o.Pairs, keys[j])) && fresh(keys) && len(keys) >= 0
 //@   loop 0: deterministic-by-contract
+
+//@ func (a *Array) Val
+//@   loop 0: invariant len(result) == rangeindex + 1 && rangeindex + 1 <= len(a.Elements)
